@@ -26,7 +26,9 @@ Inductive err :=
 | EPolNot          (* policy param does not support not operator *)
 | EPolFormat       (* invalid "fixed" param format (count / key) *)
 | EPolAtoi         (* invalid "fixed" param format: strconv.Atoi ... *)
-| EPolUnknown.     (* unexpected policy *)
+| EPolUnknown      (* unexpected policy *)
+| ESelEmpty        (* no dialer in this group *)
+| ESelRange.       (* selected dialer index is out of range *)
 
 Inductive result (A : Type) := Ok (a : A) | Err (e : err).
 Arguments Ok {A} a.
@@ -176,3 +178,12 @@ Definition new_policy (r : policy_raw) : result (policy_kind * Z) :=
   | Err e => Err e
   | Ok fs => new_policy_fs fs
   end.
+
+(* DialerGroup._select, case DialerSelectionPolicy_Fixed (component/outbound/dialer_group.go) *)
+Definition select_fixed {A : Type} (dialers : list A) (fixed_index : Z) : result A :=
+  if Nat.eqb (List.length dialers) 0 then Err ESelEmpty
+  else if (Z.ltb fixed_index 0 || Z.geb fixed_index (Z.of_nat (List.length dialers)))%bool then Err ESelRange
+  else match nth_error dialers (Z.to_nat fixed_index) with
+       | Some d => Ok d
+       | None => Err ESelRange   (* unreachable *)
+       end.
